@@ -72,6 +72,10 @@ FanTopC == Cell("fan_top", << I("kid_c", <<0, 0>>, FALSE, -1), I("kid_a", <<0, 2
                              I("kid_b", <<60, 0>>, FALSE, 180) >>, <<>>)
 Fanout == { Lib("Nano", << FanTopC, KidC("kid_a", 1), KidC("kid_b", 2), KidC("kid_c", 1), KidC("kid_d", 2) >>),
             Lib("Nano", << KidC("kid_d", 2), KidC("kid_b", 2), FanTopC, KidC("kid_a", 1), KidC("kid_c", 1) >>) }
+\* names far longer than the format's traditional 32 characters, sharing a long common prefix (names are content)
+LongP == "cell_with_a_long_hierarchical_name_of_more_than_thirtytwo_characters_"
+LongNames == { Lib("Nano", << KidC(LongP \o "a", 1), KidC(LongP \o "b", 2),
+                              Cell(LongP \o "top", << I(LongP \o "a", <<0, 0>>, FALSE, -1), I(LongP \o "b", <<0, 20>>, TRUE, 90) >>, <<>>) >>) }
 \* Random libraries (NDeep of them, TLC's RandomElement, reproducible under -seed): four cells in a random listing order,
 \* each with a random polygon / rectangle / path (disjoint by construction: separate layers or far apart), instances
 \* of the cells below in random orientations (incl. "no angle"), random units
@@ -91,7 +95,7 @@ DeepRaw(i) == LET pm == RandomElement(Perms4)
                   cs == << RandCell("d_top", <<"d_mid", "d_low", "d_mid">>), RandCell("d_mid", <<"d_low", "d_leaf">>), RandCell("d_low", <<"d_leaf">>), RandCell("d_leaf", <<>>) >>
               IN Lib(RandomElement({"Micro", "Nano", "Angstrom"}), [k \in 1..4 |-> cs[pm[k]]])
 DeepLibs == { DeepRaw(i) : i \in 1..NDeep }
-Libs == OneShape \cup UnitsCases \cup Multi \cup Hier \cup Fanout \cup DeepLibs
+Libs == OneShape \cup UnitsCases \cup Multi \cup Hier \cup Fanout \cup LongNames \cup DeepLibs
 Init == c \in Libs
 Next == UNCHANGED c
 Spec == Init /\ [][Next]_c
